@@ -19,6 +19,28 @@ CHECKS["C13"] = cfg(
                  "second=60 may be rejected or mapped to :59/:60"],
 )
 
+CHECKS["C11"] = cfg(
+    "C11", exhaustive=True,
+    technique="runtime monitoring: exhaustive decision table over header pairs at 13 encoder/decoder entry points, verdict predicate written from the statement",
+    level_text="The complete table of (protected, unprotected) header contents named by the property (alg, b64, 12 crit lists, shared registered/custom names, either header missing) is run through every encoder constructor, add_recipient, every decoder entry point and verify; each verdict is compared with a predicate derived from the statement. Exhaustive for the table, exploration beyond it.",
+    min={"quick": {"accepted": 3000, "rejected": 1000000, "rows_violating_exactly_one_rule": 1000},
+         "thorough": {"accepted": 10000, "rejected": 4000000, "rows_violating_exactly_one_rule": 3000}},
+    assumptions=["b64-disagreement between recipients is demanded of GeneralJwsEncoder::add_recipient only (the anchor); the general decoder is not judged on it",
+                 "a header pair with neither header present is outside the table (the statement gives no verdict for it)"],
+)
+
+CHECKS["C01"] = cfg(
+    "C01",
+    technique="runtime monitoring: recording JwsVerifier + own JWS assembler; oracle over the verifier call log, reference re-verification with the crypto crates, single-bit mutation of verified tokens",
+    level_text="Tokens in all three serializations (and compact through CoreDocument::verify_jws) are assembled by the harness from raw header text, so P, Y and S are known; every token the library reports verified is checked against the recording verifier's log (signing input == ASCII(P)||'.'||Y, alg from the protected header, caller's key, decoded signature, delegate verdict honoured, key alg pin, claims) and re-verified with ed25519/p256/k256 directly; then every single bit of P, Y and S of verified tokens is flipped and must stop verifying.",
+    min={"quick": {"verified": 800, "bitflips": 50000, "verified:Compact": 100, "verified:Flattened": 100, "verified:General": 100, "verified:Document": 60, "nontrivial": 100},
+         "thorough": {"verified": 10000, "bitflips": 500000, "nontrivial": 300}},
+    thorough=[{"flavour": "checked", "shards": 16, "timeout": 3000},
+              {"flavour": "asan", "shards": 8, "timeout": 3000, "args": {"scale": 60}}],
+    assumptions=["completeness (valid tokens are accepted) is counted, not demanded: the statement is 'verified only if'",
+                 "ed25519/p256/k256 crates called directly are the reference for signature validity"],
+)
+
 # Default entries for properties whose monitors are being built (not claimed in MANIFEST.json until enabled).
 for _pid in ["C%02d" % i for i in range(1, 21)]:
     if _pid not in CHECKS:
